@@ -35,6 +35,8 @@ ASSUMPTIONS = [
     "and after to_ical",
 ]
 
+HISTORY_CHECK = True   # last runs of every chunk are re-observed alone in a fresh interpreter
+
 TIERS = {
     "quick":    {"runs": 1920,  "chunk": 60,  "hash_seeds": [0, 1, 2, 3], "max_steps": 40, "perms": 4, "timeout": 900},
     "thorough": {"runs": 24000, "chunk": 300, "max_wall": 2400, "hash_seeds": [0, 1, 2, 3, 5, 8, 13, 21], "max_steps": 40, "perms": 6,
@@ -57,6 +59,9 @@ CHILD_KINDS = {"VCALENDAR": ["VEVENT", "VEVENT", "VTODO", "VJOURNAL", "VFREEBUSY
 ZONES = [["zi", "Europe/Berlin"], ["zi", "America/New_York"], ["pytz", "Europe/Vienna"], ["pytz", "Asia/Tokyo"],
          ["du", "Europe/London"], ["du", "Australia/Sydney"], ["zi", "Asia/Kolkata"], ["zi", "Pacific/Fiji"],
          ["pytz", "America/Sao_Paulo"]]
+# strings that occur both as TEXT and as URI / CAL-ADDRESS values (the value classes are all str subclasses that
+# compare equal for equal text but render differently)
+COLLIDE = ["http://example.com/a,b;c", "mailto:x,y;z@example.com", "with, comma; semi", "back\\slash,and;semi"]
 TEXTS = ["plain", "with, comma; semi", "Ünïcödé 日本語 text", "line\nbreak", "x" * 90, "back\\slash", "",
          "ends with space ", "Größe " * 20]
 FROM_ICAL_TEXTS = [
@@ -149,8 +154,12 @@ def gen_value(rng, name, marker):
     if u == "GEO":
         return "geo", ["geo", rng.choice([37.386013, -12.5, 0.0]), rng.choice([-122.082932, 179.99, 1.0])]
     if u in ("URL", "ATTACH", "TZURL"):
+        if rng.random() < 0.3:
+            return "uri", ["s", rng.choice(COLLIDE)]
         return "uri", ["s", "http://example.com/" + marker + rng.choice(["", "?a=1;b=2", "#x,y"])]
     if u in ("ATTENDEE", "ORGANIZER"):
+        if rng.random() < 0.2:
+            return "caladdress", ["s", rng.choice(COLLIDE)]
         return "caladdress", ["s", f"mailto:{marker}@example.com"]
     if u == "FREEBUSY":
         z = rng.choice([["utc"], ["utc"], rng.choice(ZONES[:2])])
@@ -171,6 +180,8 @@ def gen_value(rng, name, marker):
         return "rawonly:vTime", ["time", rng.randint(0, 23), rng.randint(0, 59), rng.randint(0, 59)]
     if u in ("COMMENT", "X-MULTI", "x-multi", "CONTACT"):
         return "text", ["s", marker]
+    if rng.random() < 0.25:
+        return "text", ["s", rng.choice(COLLIDE)]
     return "text", ["s", rng.choice(TEXTS) if rng.random() < 0.7 else marker]
 
 
